@@ -75,6 +75,8 @@ def run(chk, orch):
             if g["exit"] != 0:
                 # a failing reference run is not a C06 matter (nothing to compare with); recorded, not hidden
                 chk.probes["reference_execution_failed_skipped"] += 1
+                if "Input GTF seems to be corrupted" in (g.get("log_tail") or ""):
+                    chk.harness_error("workload generator produced an annotation IsoQuant rejects: %s" % json.dumps(spec))
                 chk.extra.setdefault("reference_failures", [])
                 if len(chk.extra["reference_failures"]) < 3:
                     chk.extra["reference_failures"].append({"spec": spec, "opts": opts, "log": (g.get("log_tail") or "")[-400:]})
